@@ -99,27 +99,31 @@ fn execute(size: usize, init: &[u64], ops: &[Op]) -> Outcome {
                 "-".into()
             }
             Op::New => {
-                pool.start_new_generation().unwrap();
+                // at discriminant u64::MAX the addition overflows under the lock (panic + poisoned mutex in this profile)
+                let _ = hutil::catch(std::panic::AssertUnwindSafe(|| pool.start_new_generation().map(|_| ())));
                 "-".into()
             }
             Op::Clr => {
-                pool.clear();
+                let _ = hutil::catch(std::panic::AssertUnwindSafe(|| pool.clear())); // `clear` unwraps the lock
                 in_window = false;
                 "-".into()
             }
             Op::Rst => {
-                pool.reset_available_resources().unwrap();
+                let _ = pool.reset_available_resources();
                 "-".into()
             }
             Op::Gb(g, d) => {
                 if g != d {
                     init_stale = true; // caller hands in a resource under a foreign discriminant
                 }
-                pool.give_back_resource(R { gen: *g }, *d).unwrap();
+                let _ = pool.give_back_resource(R { gen: *g }, *d);
                 "-".into()
             }
         };
-        let c = pool.count().unwrap();
+        let c = match pool.count() {
+            Ok(c) => c,
+            Err(_) => { out.push("p".to_string()); continue; } // poisoned: nothing can be observed any more
+        };
         if c > size && init.len() <= size {
             sfails.push(("overfull".to_string(), format!("count {} exceeds size {}", c, size)));
         }
@@ -259,6 +263,12 @@ fn main() {
     emit(&mut sink, "corpus", 2, &[0, 0], &w_race);
     // … and the two-call refresh of the API (outside the provers' protocol now), for K
     emit(&mut sink, "corpus", 2, &[0, 0], &[Op::Set(1), Op::Acq(0), Op::Clr, Op::Drop(0), Op::Acq(1)]);
+
+    // the generation counter at the end of its range, and a pool built with more resources than its size
+    hutil::quiet_panics();
+    emit(&mut sink, "corpus", 1, &[0], &[Op::Set(u64::MAX), Op::New, Op::Gb(0, 0), Op::Acq(0), Op::Clr, Op::Rst]);
+    emit(&mut sink, "corpus", 1, &[0], &[Op::Set(u64::MAX - 1), Op::New, Op::Gb(u64::MAX, u64::MAX), Op::Acq(0), Op::Drop(0), Op::New, Op::Acq(1)]);
+    emit(&mut sink, "corpus", 1, &[0, 0, 0], &[Op::Acq(0), Op::Drop(0), Op::Acq(1), Op::Acq(2), Op::Acq(3), Op::Gbi(1), Op::Gbi(2), Op::Gbi(3)]);
 
     // --- the protocol itself, read from the working tree: the calls compute_cache makes on the pool ----
     for (file, tag) in [("/repo/mithril-aggregator/src/services/prover.rs", "protocol-prover"), ("/repo/mithril-aggregator/src/services/prover_legacy.rs", "protocol-prover-legacy")] {
